@@ -100,7 +100,16 @@ impl<'a> Serialize for DynSer<'a> {
                 bytes.extend_from_slice(&c.to_le_bytes());
                 s.serialize_bytes(&bytes)
             }
-            (SType::Enum(n, symbols, _), V::Enum(i)) => s.serialize_unit_variant(intern(&n.name), *i as u32, intern(&symbols[*i])),
+            (SType::Enum(n, symbols, _), V::Enum(i)) => {
+                // serde's variant index is the position in the Rust enum, which need not be the
+                // symbol's position in the schema (skipped variants, another order): the name decides
+                let idx = match self.vary(9, 3) {
+                    1 => (*i + 1) % symbols.len(),
+                    2 => symbols.len() + *i,
+                    _ => *i,
+                };
+                s.serialize_unit_variant(intern(&n.name), idx as u32, intern(&symbols[*i]))
+            }
             (SType::Array(items), V::Array(a)) => {
                 let hint = if self.vary(1, 3) == 2 { None } else { Some(a.len()) };
                 let mut seq = s.serialize_seq(hint)?;
